@@ -79,14 +79,24 @@ class Unit:
                 finally:
                     it.an.summaries = saved
             esc = unit.escapes()
-            keys = sorted(esc)
+            # one variant per exception class and per set of context fields the exception carries
+            variants = []
+            for k in sorted(esc):
+                seen_shapes = set()
+                for p0 in esc[k]:
+                    ev = p0.value
+                    shape = tuple(sorted(n for n, x in ev.fields.items() if not (isinstance(x, ConstV) and x.value is None)))
+                    if shape not in seen_shapes:
+                        seen_shapes.add(shape)
+                        variants.append((k, ev))
             it.event('unit-call', node, unit=unit.name, args=args, kwargs=kwargs)
-            c = it.choose(1 + len(keys), f'summary of {unit.name}')
+            c = it.choose(1 + len(variants), f'summary of {unit.name}')
             if c in (0, None):
                 r = unit.make_ret(it, args, kwargs, unit.facts())
                 it.event('unit-ret', node, unit=unit.name, value=r)
                 return r
-            sample = esc[keys[c - 1]][0].value
+            keys = [v[0] for v in variants]
+            sample = variants[c - 1][1]
             exc = ExcV(sample.cls, sample.args, sample.kwargs, node=sample.node, stack=it.stack + tuple(sample.stack),
                        op=sample.op, definite=sample.definite)
             exc.fields = dict(sample.fields)
